@@ -104,7 +104,7 @@ enum Owned {
 }
 
 macro_rules! owned_reply {
-    ($bench:expr, $conn:expr, $id:expr, $t:expr, $c:expr, $users:expr) => {{
+    ($bench:expr, $conn:expr, $id:expr, $t:expr, $c:expr, $users:expr, $call:expr) => {{
         // first step: copy the target out of the borrowed message
         let target = {
             let m = match $bench.run($conn.poll(), $id) {
@@ -123,7 +123,7 @@ macro_rules! owned_reply {
                 let topic = target.topic().to_string();
                 let corr = target.correlation_data().map(|c| c.to_vec());
                 let mut publication = target.publication(&b"pong"[..]);
-                if !$users.is_empty() {
+                if $call {
                     publication = publication.properties($users);
                 }
                 let r = $bench.run($conn.publish(publication), $id);
@@ -219,7 +219,9 @@ pub fn eval(c: &Case) -> CaseOut {
         // (inbound QoS 1 requests arrive in a receive buffer they fill to the last byte)
         let rx = if c.in_qos == 1 { request.len().max(16) } else { request.len() + 16 };
         let tx = c.topic_len.unwrap_or(0) + c.corr_len.unwrap_or(0) + 128;
-        let user_ref: Vec<Prop> = (0..c.add_user_props).map(|i| up(&format!("u{}", i))).collect();
+        // add_user_props 3: `.properties(&[])` is called with an empty list (what forwarding an optional list produces)
+        let call_props = c.add_user_props > 0;
+        let user_ref: Vec<Prop> = (0..(c.add_user_props % 3)).map(|i| up(&format!("u{}", i))).collect();
         let users: Vec<Property<'_>> = props_of(&user_ref);
         let spec = Spec::plain(rx, tx);
         // the requester-side session
@@ -237,7 +239,7 @@ pub fn eval(c: &Case) -> CaseOut {
                     match m.reply(&b"pong"[..]) {
                         None => Owned::None,
                         Some(mut publication) => {
-                            if !users.is_empty() {
+                            if call_props {
                                 publication = publication.properties(&users);
                             }
                             let spec_b = Spec::plain(64, tx);
@@ -257,13 +259,13 @@ pub fn eval(c: &Case) -> CaseOut {
                         }
                     }
                 }
-                Some(0) => owned_reply!(bench, conn, id, 1, 1, &users),
-                Some(1) => owned_reply!(bench, conn, id, 2, 1, &users),
-                Some(2) => owned_reply!(bench, conn, id, 8, 4, &users),
-                Some(3) => owned_reply!(bench, conn, id, 127, 8, &users),
-                Some(4) => owned_reply!(bench, conn, id, 128, 128, &users),
-                Some(5) => owned_reply!(bench, conn, id, 300, 0, &users),
-                Some(_) => owned_reply!(bench, conn, id, 65535, 65535, &users),
+                Some(0) => owned_reply!(bench, conn, id, 1, 1, &users, call_props),
+                Some(1) => owned_reply!(bench, conn, id, 2, 1, &users, call_props),
+                Some(2) => owned_reply!(bench, conn, id, 8, 4, &users, call_props),
+                Some(3) => owned_reply!(bench, conn, id, 127, 8, &users, call_props),
+                Some(4) => owned_reply!(bench, conn, id, 128, 128, &users, call_props),
+                Some(5) => owned_reply!(bench, conn, id, 300, 0, &users, call_props),
+                Some(_) => owned_reply!(bench, conn, id, 65535, 65535, &users, call_props),
             })
         });
         let Built::Ran(Some(result)) = out else { panic!("machinery: setup failed") };
@@ -384,7 +386,7 @@ fn cases(tier: Tier) -> Vec<Case> {
     for t in &topics {
         for cl in &corrs {
             for position in 0..4u8 {
-                for add_user_props in [0u8, 2] {
+                for add_user_props in [0u8, 2, 3] {
                     for in_qos in [0u8, 1] {
                         if tier == Tier::Quick && in_qos == 1 && (t.unwrap_or(0) > 200 || cl.unwrap_or(0) > 200) {
                             continue;
@@ -500,7 +502,7 @@ fn cases(tier: Tier) -> Vec<Case> {
         }
         for t in &tl {
             for cl in &cls {
-                for add_user_props in [0u8, 1] {
+                for add_user_props in [0u8, 1, 3] {
                     for position in [0u8, 2] {
                         v.push(Case { topic_len: *t, corr_len: *cl, position, in_qos: 1, add_user_props, owned: Some(k), topic_kind: 0, same_topic: false, in_flags: 0, decoy: 0 });
                     }
